@@ -413,6 +413,11 @@ func (p *parser) validateBinaryType(binaryExp *BinaryExpression) {
 			msg := fmt.Sprintf("%q takes bool type, found %s", op, leftType)
 			p.appendErrorForToken(msg, tok)
 		}
+	case OP_EQ, OP_NOT_EQ:
+		if leftType == NONE_TYPE { // e.g. a call of a function without return value
+			msg := fmt.Sprintf("%q takes operands with a value, found %s", op, leftType)
+			p.appendErrorForToken(msg, tok)
+		}
 	}
 }
 
